@@ -28,6 +28,9 @@ type C07Scn struct {
 	Faults  []C07Fault `json:"faults"`
 	Queries [][]byte   `json:"queries"`
 	Chunk   int        `json:"chunk"` // writer chunk size on the simulated disk
+	// Conc: after the sequential enumeration, several readers restart at once
+	// (c07conc.go)
+	Conc *C07Conc `json:"concurrent_restart,omitempty"`
 }
 
 var fixedVersions = []string{
@@ -304,6 +307,9 @@ func genC07(r *Rng, tier string, worker, run int) *C07Scn {
 			continue
 		}
 		c.Faults = append(c.Faults, C07Fault{Kind: "version", Version: v})
+	}
+	if n <= 200_000 && r.Chance(0.6) {
+		c.Conc = genC07Conc(r, c)
 	}
 	return c
 }
@@ -642,6 +648,9 @@ func executeC07(scn *Scenario) *RunResult {
 			break
 		}
 	}
+	if viol == nil && c.Conc != nil && refSteps <= 2_000_000 {
+		viol = c.concurrentPhase(scn, res, stream, enc, layout, id, refSteps)
+	}
 	res.Viol = viol
 	res.NonTrivial = groupDistinct > 0
 	res.GroupDistinct = map[uint64]int64{hash64(id, c.Prior, c.Entry): groupDistinct}
@@ -688,6 +697,29 @@ func redC07(s *Scenario) []func(*Scenario) bool {
 		if len(out) > 64 {
 			break
 		}
+	}
+	if cc := s.C07.Conc; cc != nil {
+		out = append(out, func(c *Scenario) bool { c.C07.Conc = nil; return true })
+		for i := range cc.Faults {
+			i := i
+			out = append(out, func(c *Scenario) bool {
+				f := c.C07.Conc.Faults
+				if i >= len(f) || len(f) <= 1 {
+					return false
+				}
+				c.C07.Conc.Faults = append(append([]C07Fault{}, f[:i]...), f[i+1:]...)
+				c.Segs, c.Strat = nil, Strategy{Kind: "none"}
+				return true
+			})
+		}
+		if cc.Valid > 1 {
+			out = append(out, func(c *Scenario) bool {
+				c.C07.Conc.Valid = 1
+				c.Segs, c.Strat = nil, Strategy{Kind: "none"}
+				return true
+			})
+		}
+		out = append(out, redSegs(s)...)
 	}
 	if s.C07.Prior != "fresh" {
 		out = append(out, func(c *Scenario) bool { c.C07.Prior = "fresh"; return true })
